@@ -89,7 +89,10 @@ func c12PackFaults(env *fw.Env, idx int) fw.Result {
 
 // ---- Unpack: reader failing / ending at every offset --------------------------------
 
-func treeEqual(a, b map[string]mon.TNode) string {
+// treeEqual compares two trees read back from disk. implicitDirs lists
+// directories that no archive entry describes (their times are whenever they
+// were created and are not compared).
+func treeEqual(a, b map[string]mon.TNode, implicitDirs map[string]bool) string {
 	for p, x := range a {
 		y, ok := b[p]
 		if !ok {
@@ -100,6 +103,9 @@ func treeEqual(a, b map[string]mon.TNode) string {
 		}
 		if x.Kind == "file" && (x.Content != y.Content || x.Perm != y.Perm || x.MtimeNs/1e9 != y.MtimeNs/1e9) {
 			return fmt.Sprintf("file %s differs (content/mode/mtime)", p)
+		}
+		if x.Kind == "dir" && implicitDirs[p] {
+			continue
 		}
 		if x.Kind == "dir" && (x.Perm != y.Perm || x.MtimeNs/1e9 != y.MtimeNs/1e9) {
 			return fmt.Sprintf("directory %s differs (mode %o vs %o, mtime %d vs %d)", p, x.Perm, y.Perm, x.MtimeNs/1e9, y.MtimeNs/1e9)
@@ -117,6 +123,7 @@ func c12UnpackFaults(env *fw.Env, idx int) fw.Result {
 	r := env.Rand(idx)
 	var data []byte
 	var desc interface{}
+	implicit := map[string]bool{}
 	if idx%2 == 0 {
 		t := gen.RandomTree(r, gen.TreeOpts{MaxNodes: 12, MaxDepth: 3, Links: true})
 		src := filepath.Join(env.Scratch, "c12", "usrc")
@@ -147,6 +154,11 @@ func c12UnpackFaults(env *fw.Env, idx int) fw.Result {
 		}
 		data = d
 		desc = map[string]interface{}{"entries": entryStrings(c.Entries), "format": c.Format}
+		for p, n := range c15Interpret(c.Entries).Tree {
+			if n.Kind == "dir" && !n.Explicit {
+				implicit[p] = true
+			}
+		}
 	}
 	res := fw.Result{Hash: fw.HashString("ur" + string(data)), NonTrivial: true, Class: "unpack-reader-faults", Case: map[string]interface{}{"archive": desc, "stream_bytes": len(data), "faults": "read error and clean EOF at every offset 0..len"}}
 	dst := filepath.Join(env.Scratch, "c12", "dst")
@@ -184,7 +196,7 @@ func c12UnpackFaults(env *fw.Env, idx int) fw.Result {
 			if err != nil {
 				return fw.Result{Verdict: fw.Inconclusive, Msg: err.Error()}
 			}
-			if d := treeEqual(full, got); d != "" {
+			if d := treeEqual(full, got, implicit); d != "" {
 				res.Verdict, res.Finding = fw.Violated, "unpack-read-fault-swallowed"
 				res.Msg = fmt.Sprintf("reader %s at offset %d of %d, Unpack returned success, but the destination is not the whole archive: %s", map[bool]string{true: "ended (clean EOF)", false: "failed"}[eof], k, len(data), d)
 				return res
@@ -625,6 +637,91 @@ func c12EnvFault(env *fw.Env, idx int) fw.Result {
 	return res
 }
 
+// a dependency finder reports a local source that climbs out of its package:
+// the error must be reported AND must poison the builder like any other.
+func c12EscapingLocal(env *fw.Env, idx int) fw.Result {
+	r := env.Rand(idx)
+	w := gen.RandomWorld(r, gen.WorldOpts{MaxPkgs: 4, MaxReg: 2, MaxFinders: 2, MaxAdds: 3})
+	c := computeClosure(&w)
+	res := fw.Result{Hash: fw.HashString("esc" + worldKey(&w)), Case: worldDesc(&w), Class: "escaping-local-dependency"}
+	if c.Problem != "" {
+		res.Class = "not-fault-free"
+		return res
+	}
+	// pick an artifact of the closure and give its location one escaping local dependency
+	var arts []artifact
+	for a := range c.Arts {
+		arts = append(arts, a)
+	}
+	if len(arts) == 0 {
+		return res
+	}
+	// deterministic choice
+	best := arts[0]
+	for _, a := range arts {
+		if fmt.Sprint(a) < fmt.Sprint(best) {
+			best = a
+		}
+	}
+	depth := 0
+	if best.Sub != "" {
+		depth = strings.Count(best.Sub, "/") + 1
+	}
+	esc := strings.Repeat("../", depth+1+r.Intn(2)) + "elsewhere"
+	pos := r.Intn(3) // before / between / after the other declarations
+	for i := range w.Remotes {
+		if w.Remotes[i].Content != w.Remotes[best.Pkg].Content {
+			continue
+		}
+		k := gen.DepKey(best.Sub, best.Finder)
+		deps := append([]gen.Dep{}, w.Remotes[i].Deps[k]...)
+		d := gen.Dep{Kind: "local", Local: esc, Finder: best.Finder}
+		switch {
+		case pos == 0 || len(deps) == 0:
+			deps = append([]gen.Dep{d}, deps...)
+		case pos == 1:
+			deps = append(deps[:1], append([]gen.Dep{d}, deps[1:]...)...)
+		default:
+			deps = append(deps, d)
+		}
+		nd := map[string][]gen.Dep{}
+		for kk, vv := range w.Remotes[i].Deps {
+			nd[kk] = vv
+		}
+		nd[k] = deps
+		w.Remotes[i].Deps = nd
+	}
+	res.Case = worldDesc(&w)
+	res.NonTrivial = true
+	dir := filepath.Join(env.Scratch, "c12", "escbundle")
+	br := runBuild(&w, dir, buildOpts{})
+	if br.NewErr != nil {
+		return fw.Result{Verdict: fw.Inconclusive, Msg: br.NewErr.Error()}
+	}
+	viol := func(finding, msg string, a ...interface{}) fw.Result {
+		res.Verdict, res.Finding, res.Msg = fw.Violated, finding, fmt.Sprintf(msg, a...)
+		return res
+	}
+	for _, a := range br.Adds {
+		if a.Panic != "" {
+			return viol("add-panic-on-fault", "Add panicked: %s", a.Panic)
+		}
+	}
+	if !br.hasErrors() {
+		return viol("failure-not-reported", "a finder reported the local source %q, which leaves its package, but no Add call returned an error diagnostic", esc)
+	}
+	if br.Bundle != nil {
+		return viol("bundle-from-failed-build", "a *Bundle came out of a build that reported an escaping local source")
+	}
+	if msg := builderRefuses(br.Builder, br.be); msg != "" {
+		return viol("builder-usable-after-failure", "escaping local source %q: %s", esc, msg)
+	}
+	if bundle, err := sourcebundle.OpenDir(dir); err == nil && bundle != nil {
+		return viol("failed-build-directory-opens", "the target directory of the failed build opens as a bundle")
+	}
+	return res
+}
+
 var _ = io.EOF
 
 func init() {
@@ -633,14 +730,15 @@ func init() {
 	policy := &fw.Phase{Name: "policy-rejections-are-illegal-slug-errors", Exhaustive: true, N: func(string) int { return 16 }, Run: c12PolicyErrors}
 	builder := &fw.Phase{Name: "builder-every-callback-position-and-crash-point", N: fw.Fixed(60, 500), Run: func(env *fw.Env, idx int) fw.Result { return c12Builder(env, idx, false) }}
 	builderPairs := &fw.Phase{Name: "builder-pairs-of-fault-positions", ThoroughOnly: true, N: fw.Fixed(0, 200), Run: func(env *fw.Env, idx int) fw.Result { return c12Builder(env, idx, true) }}
+	escLocal := &fw.Phase{Name: "finder-reports-local-source-leaving-its-package", N: fw.Fixed(300, 5000), Run: c12EscapingLocal}
 	envF := &fw.Phase{Name: "target-directory-becomes-read-only", Chroot: true, Unpriv: true, N: fw.Fixed(20, 300), Run: c12EnvFault}
 	fw.Register(&fw.Property{
 		ID:    "C12",
 		Level: "fault_enumeration",
 		Rule: "single failure positions are enumerated completely per stream / build: Pack with a writer failing the write that crosses offset k for every k in [0,len) (error required); Unpack with a reader returning an error, and a clean EOF, at every offset 0..len (success only if the destination equals the tree of the whole archive); 16 policy refusals must be *IllegalSlugError; " +
 			"for generated worlds every fetcher / registry / finder call position i is faulted (fetch: error before and after partial content; registry: error; finder: error diagnostic and warning diagnostic; all pairs i<j for builds of <=12 calls in the thorough tier): the Add call that ran it must return an error diagnostic, every public Builder method must refuse afterwards, no *Bundle may exist, the target directory must not open; warnings must reach caller and tracer unchanged with file names rewritten to source addresses and must not poison; " +
-			"at every callback entry and exit of a fault-free build a copy of the target directory must not open as a bundle, after Close it must; as an unprivileged user the target directory is made read-only at every callback position. non-trivial = the faulted position was reached; distinct = stream / world",
+			"at every callback entry and exit of a fault-free build a copy of the target directory must not open as a bundle, after Close it must; a finder-reported local source that leaves its package (placed before, between or after other declarations) must be reported and must poison the builder like any other failure; as an unprivileged user the target directory is made read-only at every callback position. non-trivial = the faulted position was reached; distinct = stream / world",
 		Assumptions: []string{"a truncation inside trailing padding or the gzip trailer may legitimately succeed: the oracle for Unpack is 'success implies the whole archive was materialised'", "close-time errors of destination files cannot be provoked from the public boundary", "the optional strace syscall-fault injection of the design was not built (no stated quantifier depends on it)"},
-		Phases:      []*fw.Phase{packW, unpackR, policy, builder, builderPairs, envF},
+		Phases:      []*fw.Phase{packW, unpackR, policy, builder, builderPairs, escLocal, envF},
 	})
 }
